@@ -233,7 +233,7 @@ def load_catalogue(props):
         if cb.startswith("missed"):
             continue
         if not props or prop in props:
-            muts.append(dict(id=f"seed:{d}", prop=prop, rule=rule, desc=(meta.get("summary") or "")[:100], patch=os.path.join(sd, d, "patch.diff")))
+            muts.append(dict(id=f"seed:{d}", prop=prop, rule=rule, desc=(meta.get("summary") or "")[:100], patch=os.path.join(sd, d, "patch.diff"), base=(meta.get("confirmed") or {}).get("base_commit")))
     # behaviour-preserving refactorings written by independent authors: every one must leave all verdicts alone
     rd = os.path.join(VERIF, "refactors")
     for d in sorted(os.listdir(rd)) if os.path.isdir(rd) else []:
